@@ -95,6 +95,40 @@ func parseModel(out string) map[string]string {
 	return m
 }
 
+// retryUnknown gives the obligations no solver decided a second, calmer round: two at a time
+// with a longer limit.  A query that is decided in seconds on an idle machine can exceed the
+// race limit when sixteen functions are being solved at once; an undecided obligation is
+// reported as a violation, so it must not depend on the load.
+func retryUnknown(obls []*Obligation, secs int) {
+	var wg sync.WaitGroup
+	sem := make(chan struct{}, 2)
+	for _, o := range obls {
+		if o.Cover || o.Status != "unknown" || o.File == "" {
+			continue
+		}
+		o := o
+		wg.Add(1)
+		sem <- struct{}{}
+		go func() {
+			defer wg.Done()
+			defer func() { <-sem }()
+			r := race(o.File, secs, secs)
+			o.Secs += r.secs
+			switch r.status {
+			case "unsat":
+				o.Status, o.Solver, o.Output = "discharged", r.solver, r.out
+				if os.Getenv("GOVC_KEEP") == "" {
+					os.Remove(o.File)
+				}
+			case "sat":
+				o.Status, o.Solver, o.Output = "failed", r.solver, r.out
+				o.Model = parseModel(r.out)
+			}
+		}()
+	}
+	wg.Wait()
+}
+
 // discharge solves all obligations of a VC in parallel.
 func discharge(vc *VC, dir string, tag string, workers int, quick, slow int) {
 	os.MkdirAll(dir, 0o755)
@@ -120,7 +154,7 @@ func discharge(vc *VC, dir string, tag string, workers int, quick, slow int) {
 			b.WriteString("(check-sat)\n(get-model)\n")
 			os.WriteFile(file, []byte(b.String()), 0o644)
 			r := race(file, quick, slow)
-			o.Solver, o.Secs, o.Output = r.solver, r.secs, r.out
+			o.Solver, o.Secs, o.Output, o.File = r.solver, r.secs, r.out, file
 			switch {
 			case o.Cover && r.status == "sat":
 				o.Status = "cover-ok"
@@ -212,4 +246,11 @@ func dischargeBatch(vc *VC, dir string, tag string, workers int, quick, slow int
 	}
 	sub := &VC{S: vc.S, obls: rest, Options: vc.Options}
 	discharge(sub, dir, tag, workers, quick, slow)
+}
+
+func slowOf(tier string) int {
+	if tier == "thorough" {
+		return 60
+	}
+	return 20
 }
